@@ -320,3 +320,81 @@ Print Assumptions C06_staging_ancestors_run.
 Print Assumptions C06_staging_chain_closed_form.
 Print Assumptions C06_staging_valid_chains.
 Print Assumptions C06_fit_chains.
+
+(* ================================================================================================================ *)
+(* Tie (T) for the offline staging: get_offline_subgraphs, _get_required_nodes and _get_links are TRANSLATED on every run from
+   the current text of reservoirpy/utils/graphflow.py (tools/vlib/py2coq_staging.py -> coq/gen/Gen_staging.v, vocabulary
+   base/PyColl.v + base/PyColl2.v) and proved equal to the hand-written model the theorems above are about
+   (proofs/Gen_staging_eq.v).  Parameters of the generated code: ord_n k s = the order in which Python iterates over the set s
+   at conversion site k (only assumed to be a permutation; site 2 is `for n in previous` of _get_links), srt = the name sort of
+   find_parents_and_children (the edge list of the model is listed in that order, FitSem.v's convention), off / onl = the node
+   attributes is_trained_offline / is_trained_online (no node carries both: open finding offline-and-online-node-hangs),
+   fuel = S (S |nodes|).  Exceptions of the generated code: IndexError (`subgraphs[-1]`, no offline node), TypeError
+   (`for p in parents.get(node)`, proved unreachable), OutOfFuel (proved unreachable on a DAG). *)
+From Coq Require Import Permutation.
+From RV Require Import base.PyColl base.PyColl2 gen.Gen_staging proofs.Gen_staging_eq.
+
+(* whatever the iteration order of the Python sets: the generated code returns the stages of the model -- same node lists, same
+   edge lists, and for each stage a `links` dictionary with the entries of the model's relations in some order *)
+Theorem C06_generated_staging_is_model_up_to_dict_order
+        (ord_n : nat -> list nat -> list nat) (srt : list (nat * nat) -> list (nat * nat)) (off onl : nat -> bool) (g : graph) :
+  (forall k s, Permutation (ord_n k s) s) -> srt (g_edges g) = g_edges g ->
+  (forall n, off n = offline g n) -> (forall n, In n (g_nodes g) -> off n = true -> onl n = false) -> NoDup (g_nodes g) ->
+  let gen := GenStaging.get_offline_subgraphs ord_n srt off onl (S (S (length (g_nodes g)))) (g_nodes g) (g_edges g) in
+  match FitSem.get_offline_subgraphs g with
+  | Some stg => exists out, gen = Val out /\
+                  map (fun x => fst (fst x)) out = map s_nodes stg /\ map (fun x => snd (fst x)) out = map s_edges stg /\
+                  Forall2 (fun x s => Permutation (snd x) (s_rel s)) out stg
+  | None => gen = OutOfFuel \/ gen = Exc IndexError
+  end.
+Proof. exact (fun H1 H2 H3 H4 H5 => gen_staging_is_model_perm ord_n srt off onl H1 g H2 H3 H4 H5). Qed.
+
+(* ... and it IS the model's staging when `previous` is iterated in its representation order *)
+Theorem C06_generated_staging_is_model
+        (ord_n : nat -> list nat -> list nat) (srt : list (nat * nat) -> list (nat * nat)) (off onl : nat -> bool) (g : graph) :
+  (forall k s, Permutation (ord_n k s) s) -> srt (g_edges g) = g_edges g ->
+  (forall n, off n = offline g n) -> (forall n, In n (g_nodes g) -> off n = true -> onl n = false) -> NoDup (g_nodes g) ->
+  (forall s, ord_n 2 s = s) ->
+  let gen := GenStaging.get_offline_subgraphs ord_n srt off onl (S (S (length (g_nodes g)))) (g_nodes g) (g_edges g) in
+  match FitSem.get_offline_subgraphs g with
+  | Some stg => gen = Val (map unstage stg)
+  | None => gen = OutOfFuel \/ gen = Exc IndexError
+  end.
+Proof. exact (fun H1 H2 H3 H4 H5 H6 => gen_staging_is_model ord_n srt off onl H1 g H2 H3 H4 H5 H6). Qed.
+
+(* C06_staging_terminates, about the generated code: on a DAG it never runs out of fuel and never raises TypeError; it raises
+   IndexError exactly when there is no offline node and returns a staging otherwise *)
+Theorem C06_generated_staging_terminates
+        (ord_n : nat -> list nat -> list nat) (srt : list (nat * nat) -> list (nat * nat)) (off onl : nat -> bool) (g : graph) :
+  (forall k s, Permutation (ord_n k s) s) -> srt (g_edges g) = g_edges g ->
+  (forall n, off n = offline g n) -> (forall n, In n (g_nodes g) -> off n = true -> onl n = false) ->
+  wf_dagb g = true ->
+  let gen := GenStaging.get_offline_subgraphs ord_n srt off onl (S (S (length (g_nodes g)))) (g_nodes g) (g_edges g) in
+  (filter (offline g) (g_nodes g) = [] /\ gen = Exc IndexError) \/
+  (filter (offline g) (g_nodes g) <> [] /\ exists out, gen = Val out).
+Proof. exact (fun H1 H2 H3 H4 H5 => gen_staging_terminates ord_n srt off onl H1 g H2 H3 H4 (topo_okb_NoDup _ _ _ H5) H5). Qed.
+
+(* C06_staging_trains_each_once, about the staging the generated code returns *)
+Theorem C06_generated_staging_trains_each_once
+        (ord_n : nat -> list nat -> list nat) (srt : list (nat * nat) -> list (nat * nat)) (off onl : nat -> bool) (g : graph) out :
+  (forall k s, Permutation (ord_n k s) s) -> srt (g_edges g) = g_edges g ->
+  (forall n, off n = offline g n) -> (forall n, In n (g_nodes g) -> off n = true -> onl n = false) ->
+  wf_dagb g = true ->
+  GenStaging.get_offline_subgraphs ord_n srt off onl (S (S (length (g_nodes g)))) (g_nodes g) (g_edges g) = Val out ->
+  let T := train_sets g [] (map (fun x => fst (fst x)) out) in
+  NoDup (concat T) /\ (forall v, In v (concat T) <-> (In v (g_nodes g) /\ offline g v = true)).
+Proof. exact (fun H1 H2 H3 H4 H5 => gen_staging_trains_each_once ord_n srt off onl H1 g H2 H3 H4 (topo_okb_NoDup _ _ _ H5) H5 out). Qed.
+
+(* non-vacuity: the 7-node example above, sets iterated in representation order, edges already in name order *)
+Example C06_example_generated_staging :
+  let ord_n := fun (_ : nat) (s : list nat) => s in
+  let srt := fun l : list (nat * nat) => l in
+  (forall k s, Permutation (ord_n k s) s) /\ srt (g_edges g_seven) = g_edges g_seven /\ wf_dagb g_seven = true /\
+  GenStaging.get_offline_subgraphs ord_n srt (offline g_seven) (fun _ => false) 9 (g_nodes g_seven) (g_edges g_seven)
+  = Val [([0; 1; 2; 4], [(0, 1); (0, 4); (1, 2)], [(1, [2]); (4, [5])]); ([2; 3; 5; 6], [(2, 3); (3, 5); (5, 6)], [(5, [6])])].
+Proof. cbv zeta. split; [intros; apply Permutation_refl|]. repeat split; vm_compute; reflexivity. Qed.
+
+Print Assumptions C06_generated_staging_is_model_up_to_dict_order.
+Print Assumptions C06_generated_staging_is_model.
+Print Assumptions C06_generated_staging_terminates.
+Print Assumptions C06_generated_staging_trains_each_once.
